@@ -68,12 +68,15 @@ CHECKS = {
     "C02": dict(
         pkg="frame",
         level="exploration",
-        groups=[G("^TestC02_Write$", 6000, 40000)],
+        groups=[G("^TestC02_Write$", 6000, 40000), G("^TestC02_RW$", 25, 150, shrinktime="5s")],
         rule="1-3 WriteFcall operations on one channel over a tapped in-memory connection, optionally with SetMSize in between; the message is drawn first "
              "(any kind, Twrite/Tread over-represented), then msize = its frame size + delta, delta in -40..+40 (60%) or small/huge/random in [24, 2^20]; "
              "Tread counts near msize-11, 2^31 and 2^32; 10% cancelled contexts. Oracle written independently of maybeTruncate from the property text: "
-             "expected tap contents computed with the reference encoder. Non-trivial = |frame - msize| <= 40 or a truncate/clamp/refuse path was taken.",
-        require_classes=dict(quick=["twrite_truncated", "twrite_exact", "tread_clamped", "other_refused", "other_exact", "other_over_by_1", "cancelled"], thorough=[]),
+             "expected tap contents computed with the reference encoder. TestC02_RW: over a net.Pipe-like connection (a write returns when the peer has taken the bytes; deadlines "
+             "honoured; what the peer has not taken when a write gives up is never delivered) the peer takes 1..8 bytes of the frame and stalls; meanwhile a ReadFcall on the same "
+             "channel runs into its own 15..40 ms deadline; 10..30 ms later the peer takes the rest: the write (live context) must have emitted exactly its one frame. "
+             "Non-trivial = |frame - msize| <= 40 or a truncate/clamp/refuse path was taken.",
+        require_classes=dict(quick=["twrite_truncated", "twrite_exact", "tread_clamped", "other_refused", "other_exact", "other_over_by_1", "cancelled", "write_across_read_deadline"], thorough=[]),
         assumptions=["msize >= 24 as the property states", "the connection accepts every write (no I/O faults; those belong to C11/C12)"],
     ),
     "C03": dict(
